@@ -36,9 +36,26 @@ def desiredPhase (o : OSet) (ph : PhaseSpec) : OPhase :=
     paused := o.lifecycle = .paused, revision := o.revision, previous := o.previous, objs := ph.objs,
     conds := [], controllerOf := [] }
 
+/-- pause propagation: merge patch with the resourceVersion just read.  `client.Patch` writes the
+server's answer back into the in-memory object, so the status check afterwards sees the NEW
+generation: right after a pause flip the phase counts as "no status reported". -/
+def propagatePause (o : OSet) (n : String) (cur : OPhase) (w : World) : World × OPhase :=
+  let want := decide (o.lifecycle = .paused)
+  if cur.paused ≠ want then
+    let (w, rv) := freshRV w
+    let p := { cur with paused := want, gen := cur.gen + 1, rv := rv }
+    ({ setPhase w n (some p) with phaseEvents := w.phaseEvents ++ [PhaseEvent.pausePatch n want none] }, p)
+  else (w, cur)
+
+/-- what the ObjectSet relays from the phase object: its controllerOf, and "passed" only if it
+reports Available=True for its CURRENT generation. -/
+def relayStatus (cur : OPhase) : List CRef × Bool :=
+  match findCond cur.conds "Available" with
+  | none => (cur.controllerOf, false)
+  | some c => if c.obsGen ≠ cur.gen then (cur.controllerOf, false) else (cur.controllerOf, c.status = "True")
+
 /-- `objectSetRemotePhaseReconciler.Reconcile` — get-or-create the phase object (the pass that
-creates it ends with the NotFound error of the preceding Get), propagate pause, relay status:
-Available is trusted only if its observedGeneration equals the phase object's generation. -/
+creates it ends with the NotFound error of the preceding Get), propagate pause, relay status. -/
 def remoteReconcile (o : OSet) (ph : PhaseSpec) (w : World) : World × Except PassErr (List CRef × Bool) :=
   let n := phaseName o ph
   match w.phases n with
@@ -50,21 +67,8 @@ def remoteReconcile (o : OSet) (ph : PhaseSpec) (w : World) : World × Except Pa
     (w, .error .other)
   | some cur =>
     let w := { w with remoteRefs := addRemote w.remoteRefs (cur.name, cur.uid) }
-    let want := o.lifecycle = .paused
-    -- pause propagation: merge patch with the resourceVersion just read.  `client.Patch` writes the
-    -- server's answer back into the in-memory object, so the status check below sees the NEW
-    -- generation: right after a pause flip the phase counts as "no status reported".
-    let (w, cur) : World × OPhase :=
-      if cur.paused ≠ decide want then
-        let (w, rv) := freshRV w
-        let p := { cur with paused := want, gen := cur.gen + 1, rv := rv }
-        ({ setPhase w n (some p) with phaseEvents := w.phaseEvents ++ [PhaseEvent.pausePatch n want none] }, p)
-      else (w, cur)
-    match findCond cur.conds "Available" with
-    | none => (w, .ok (cur.controllerOf, false))
-    | some c =>
-      if c.obsGen ≠ cur.gen then (w, .ok (cur.controllerOf, false))
-      else (w, .ok (cur.controllerOf, c.status = "True"))
+    let (w, cur) := propagatePause o n cur w
+    (w, .ok (relayStatus cur))
 
 /-- `objectSetRemotePhaseReconciler.Teardown`: gone ⇒ done; not controlled by us ⇒ done;
 otherwise delete it and wait until it is gone. -/
